@@ -349,32 +349,26 @@ Proof.
   apply rpp_res_coh_of. eapply rpp_wpres_c; [exact F | exact H].
 Qed.
 
-(* what rp_repair_end does to the state: the END header at the raw's offset, then the file header *)
-Definition rpp_end_state (w9 : rp_w) : rp_w :=
-  let w9a := if rp_w_inplace w9 then rp_w_set_uninit w9 else w9 in
-  let b9 := rp_wm_base w9a 0 in
-  let b10 := wm_core_wr_end b9 in
-  rp_commit w9a (wm_b_set_raw b10 (wm_raw_close (wm_b_raw b10))).
+(* rp_repair_end = the state change rp_end_state, then reads only *)
 Lemma rpp_repair_end_eq : forall w9,
-  let w10 := rpp_end_state w9 in
-  let e := rp_offset (rp_r (rp_w_io w9)) in
+  let w10 := rp_end_state w9 in
+  let e := rp_flen (rp_w_io w9) in
   exists w11, rp_file (rp_w_io w11) = rp_file (rp_w_io w10) /\ rp_flen (rp_w_io w11) = rp_flen (rp_w_io w10) /\
               rp_log w11 = rp_log w10 /\
               (rp_repair_end w9 = rp_finish w11 true e \/ exists rc, rc <> 0 /\ rp_repair_end w9 = rp_res_end rc w11 true e).
 Proof.
-  intros w9. cbv zeta. unfold rp_repair_end. fold (rpp_end_state w9).
-  assert (E : wm_offset (wm_b_raw (rp_wm_base (if rp_w_inplace w9 then rp_w_set_uninit w9 else w9) 0)) = rp_offset (rp_r (rp_w_io w9)))
-    by (destruct (rp_w_inplace w9); reflexivity).
-  rewrite E.
-  pose proof (rpp_raw_open_file (rp_w_io (rpp_end_state w9)) false) as O. cbv zeta in O.
-  destruct (rp_raw_open (rp_w_io (rpp_end_state w9)) false) as [s11 rc11]. cbn [fst] in O. destruct O as (O1 & O2 & _).
-  exists (rp_w_set_io (rpp_end_state w9) s11). repeat split; try assumption.
+  intros w9. cbv zeta. unfold rp_repair_end.
+  change (rp_offset (rp_r (rp_w_io (rp_end_seek w9)))) with (rp_flen (rp_w_io w9)).
+  pose proof (rpp_raw_open_file (rp_w_io (rp_end_state w9)) false) as O. cbv zeta in O.
+  destruct (rp_raw_open (rp_w_io (rp_end_state w9)) false) as [s11 rc11]. cbn [fst] in O. destruct O as (O1 & O2 & _).
+  exists (rp_w_set_io (rp_end_state w9) s11). repeat split; try assumption.
   destruct (negb (rc11 =? 0)) eqn:E11; [right; exists rc11; split; [now apply rpp_negb_eqb_true | reflexivity] | left; reflexivity].
 Qed.
-Lemma rpp_end_state_pres : forall w9, rpp_wpres w9 (rpp_end_state w9).
+Lemma rpp_end_state_pres : forall w9, rpp_wpres w9 (rp_end_state w9).
 Proof.
-  intros w9. unfold rpp_end_state. cbv zeta. eapply rpp_wpres_trans; [| apply rpp_wpres_commit].
-  destruct (rp_w_inplace w9); [apply rpp_wpres_uninit | apply rpp_wpres_refl].
+  intros w9. unfold rp_end_state. cbv zeta. eapply rpp_wpres_trans; [| apply rpp_wpres_commit].
+  eapply rpp_wpres_trans; [apply (rpp_wpres_io w9); apply rpp_seek_end_frame |]. fold (rp_end_seek w9).
+  destruct (rp_w_inplace (rp_end_seek w9)); [apply rpp_wpres_uninit | apply rpp_wpres_refl].
 Qed.
 Lemma rpp_repair_end_coh : forall f w9, rpp_coh f w9 -> rpp_res_coh f (rp_repair_end w9).
 Proof.
